@@ -17,23 +17,27 @@ LEVEL_TEXT = ("Theorems for every list of bytes: recv is total, consumes exactly
               "Instantiated with C01's layouts and decoder (Frame/Instantiate.v): the two models of recv agree on every stream, a delivered message is the decoding of exactly the "
               "frame's body, and every frame send writes is delivered with exactly the encoded field values (up to mnorm). Every run re-checks the proofs and compares the model with the real recv / Server.Handle.")
 LEVEL_NOTE = ("Trusted: Coq kernel + vm_compute; the hand model Frame/Model.v (tied by the differential only); FrameGen.v (registry read from messages.go, also compared "
-              "with the run-time registry); the decoder: Codec/ (C01) via Frame/Instantiate.v, and C02_spec_is_source puts Codec/GenCheck (protocol table = what go2coq reads from messages.go) into "
-              "C02's cone, so a go2coq refusal of a decoder edit also fails C02. The differential's property predicate demands, for every observed complete frame, the verdict (deliver / reject and "
-              "the reply tag) of the protocol table's decoder on those bytes -- not an oracle taken from the implementation (the implementation's own m.decode verdicts are additionally compared with the table). "
-              "'Never panics' holds BY CONSTRUCTION in the model (no panic outcome, total functions): it is not a theorem about the Go code; its observed half is recover() around every recv call plus the "
+              "with the run-time registry); CodecGen (decode programs gm_dec, layouts) with codecA's semantics Codec/Reuse.v. Inside the decoders: C02_program_verdict proves, for all 65 registered types "
+              "(table obligation DecodeTie.all_good, vm_compute), every body, every recycled-object state and every pool content, that the generated decode program run as recv runs it accepts exactly what the layout decoder "
+              "accepts on exactly the body bytes; C02_recv_with_programs / C02_serve_with_programs transfer every theorem stated for decode_codec to the programs; the unsliced pooled buffer (C02-m3) is refuted in the model. "
+              "C02_spec_is_source keeps Codec/GenCheck (protocol table = what go2coq reads from messages.go) in C02's cone, so a go2coq refusal of a decoder edit also fails C02. The differential's property predicate demands, "
+              "for every observed complete frame, the verdict (deliver / reject and the reply tag) of the protocol table's decoder on those bytes -- not an oracle taken from the implementation. "
+              "'Never panics': C02_recv_no_panic is a theorem about recv written with Go's partial operations (wrapping uint32 subtraction, data[:size] on a pooled slice of any length, make) with an explicit panic outcome -- unreachable; "
+              "inside the decoders it still holds BY CONSTRUCTION (failed bounds check = None of the option monad; buffer.go primitives matched exactly by CodecGen): observed half = recover() around every recv call plus the "
               "fuzz-style loop (quick: seconds; thorough: ~150 s recv + ~50 s live Server.Handle), a panic/hang/process crash being a violation with the stream as replay. "
+              "The recvmsg path below recv: VecGen reads the iovec-advance statements of readFromBuffersLinux, run against consume_iov (bounded exhaustive, semantic; C02_vec_advance_agrees_bounded). "
               "Allocation IS observed: runtime TotalAlloc delta per recv call (min of 3) on hostile counts, valid frames and refused size fields, required <= 64 x accepted frame size + 64 KiB "
               "(64 KiB for a refused header); real peak RSS is not measured. The harness is white box (recv, msgDotLRegistry, message structs): renaming those breaks its compilation = reported as a violation.")
 DESIGN_REF = "6/C02"
 ASSUMPTIONS = [
     "io.ReadAtLeast, io.Copy(ioutil.Discard, io.LimitReader) and vecnet.Buffers.ReadFrom obtain exactly the requested bytes or fail (C17 proves this of the vecnet model for every segmentation)",
-    "the decode verdict (overrun or not) is a function of type, fixed part and payload (parameter decode_ok; theorems hold for every such function)",
+    "frame-layer theorems hold for every decode verdict function (parameter decode_ok); instantiated with the layout decoder (Instantiate.v) and with the generated decode programs (DecodeTie.v), proved equal",
     "sessions: distinct tags in flight and no Tversion inside the stream (otherwise the case is skipped: reuse of an active tag is legitimately unanswered)",
 ]
 TRUSTED_BASE = [
     "Coq 8.16.1 kernel, vm_compute (cases evaluation); no native_compute",
     "axioms: none (Print Assumptions: closed under the global context for every property theorem)",
-    "go2coq ConstGen (headerLength, maximumLength, noTag, msg numbers) and FrameGen (registry: type -> plain / payloader FixedSize)",
+    "go2coq ConstGen (headerLength, maximumLength, noTag, msg numbers), FrameGen (registry: type -> plain / payloader FixedSize), CodecGen (decode programs; semantics Codec/Reuse.v), VecGen (iovec-advance statements; interpreter Frame/Imp.v)",
     "hand-written model Frame/Model.v, tied by harness/p9/c02_recv_test.go + Frame/FrameCases.v",
 ]
 
